@@ -183,7 +183,7 @@ def cases(draw):
                                    mid, ncs_id=draw(st.none() | st.just('NCS'))),
                         pretty=draw(st.booleans()))
     after = []
-    for k in draw(st.permutations(B.ALL_KINDS)):
+    for k in draw(gen.permutation(B.ALL_KINDS)):
         mid += draw(st.integers(1, 9))
         _k, t = draw(gen.message(state, col['ro_id'], kinds=[k], faults='none', rich=False, mid=mid))
         after.append(t)
